@@ -66,34 +66,17 @@ theorem mem_insert (n v : Str) (hs : Headers) (x : Str × Str) (h : x ∈ insert
         · exact Or.inl h'
         · exact Or.inr (List.mem_cons_of_mem _ h')
 
-/-- **the host recomputes the same header part**: inserting the authorization header (with a
-printable value) into a head whose canonical form exists does not change the canonical form -/
-theorem canonHeaders_insert_auth (hs : Headers) (v ch : Str) (hv : valueIsStr v = true)
-    (h : canonHeaders hs = some ch) : canonHeaders (insert authHeader v hs) = some ch := by
-  unfold canonHeaders at h ⊢
-  by_cases hall : hs.all (fun kv => valueIsStr kv.2) = true
-  · rw [if_pos hall] at h
-    have hall' : (insert authHeader v hs).all (fun kv => valueIsStr kv.2) = true := by
-      rw [List.all_eq_true] at hall ⊢
-      intro x hx
-      rcases mem_insert _ _ _ _ hx with e | e
-      · rw [e]; exact hv
-      · exact hall x e
-    rw [if_pos hall']
-    simp only at h ⊢
-    rw [filter_sortBy _ keyOrder_weak, lastPerName_filter_ne, ← remove, remove_insert_self, remove,
-      ← lastPerName_filter_ne, ← filter_sortBy _ keyOrder_weak]
-    exact h
-  · rw [if_neg hall] at h; cases h
+/-- **the host recomputes the same header part**: inserting the authorization header into a head
+does not change its canonical form (the rule skips that header) -/
+theorem canonHeaders_insert_auth (hs : Headers) (v : Str) :
+    canonHeaders (insert authHeader v hs) = canonHeaders hs := by
+  unfold canonHeaders
+  simp only
+  rw [filter_sortBy _ keyOrder_weak, lastPerName_filter_ne, ← remove, remove_insert_self, remove,
+    ← lastPerName_filter_ne, ← filter_sortBy _ keyOrder_weak]
 
-/-- the canonical string has the documented layout -/
-theorem sigInput_layout (method : Str) (body : List UInt8) (hs : Headers) (u : Uri) (si : List UInt8)
-    (h : sigInput method body hs u = some si) :
-    ∃ ch, canonHeaders hs = some ch ∧
-      si = strBytes method ++ [10] ++ body ++ [10] ++ strBytes ch ++ strBytes u.path ++ [10] ++ strBytes (canonParams u) := by
-  unfold sigInput at h
-  cases hc : canonHeaders hs with
-  | none => rw [hc] at h; cases h
-  | some ch => rw [hc] at h; exact ⟨ch, rfl, by simpa using h.symm⟩
+theorem sigInput_insert_auth (method : Str) (body : List UInt8) (hs : Headers) (u : Uri) (v : Str) :
+    sigInput method body (insert authHeader v hs) u = sigInput method body hs u := by
+  unfold sigInput; rw [canonHeaders_insert_auth]
 
 end Gpa.Canon
